@@ -78,6 +78,13 @@ def regenerate_gen(stub=frozenset()) -> dict:
 	py = regen_py(REPO, LEAN / 'GambitV' / 'Gen', stub)
 	for mod, us in py.get('untranslatable_by_module', {}).items():
 		by_module.setdefault('GambitV.Gen.' + mod, []).extend(us)
+	from pytrace import regenerate as regen_trace
+	tr = regen_trace(REPO, LEAN / 'GambitV' / 'Gen')
+	for mod, us in tr.get('untranslatable_by_module', {}).items():
+		by_module.setdefault('GambitV.Gen.' + mod, []).extend(us)
+	py['untranslatable'] = list(py.get('untranslatable', [])) + list(tr.get('untranslatable', []))
+	py['functions'] = list(py.get('functions', [])) + list(tr.get('functions', []))
+	py.setdefault('modules', {}).update(tr.get('modules', {}))
 	rep['untranslatable'] = list(rep.get('untranslatable', [])) + list(py.get('untranslatable', []))
 	rep['functions'] = list(rep.get('functions', [])) + list(py.get('functions', []))
 	rep['py'] = {k: v for k, v in py.items() if k in ('modules', 'ast_sha1')}
